@@ -133,6 +133,9 @@ def group_pipeline(c, nprog_quick=240, nprog_thorough=2500, depth_quick=16, dept
     depth = depth_quick if c.tier == "quick" else depth_thorough
     progs = c.generate("Gen_Group", env={"VERIF_DEPTH": depth}, simulate="num=%d" % n)
     files = c.drive("group", progs, shards=max(1, min(vlib.NCPU, n // 12)))
+    # the fixed sweep: every distinguished element in every raw representative through every operation
+    sweep = c.generate("Gen_GroupSweep", name="prog-sweep")
+    files += c.drive("group", sweep, name="tr-sweep", shards=vlib.NCPU)
     # BatchNormalize splits its list among NumCPU workers: part of the histories again on 3 (thorough: 3, 5, 7) CPUs
     sub = os.path.join(c.dir, "prog-group-cpu.jsonl")
     with open(sub, "w") as fh:
